@@ -5,7 +5,7 @@
    (configurations, nil, errors), any number of concurrent Reload()/Stop() callers. *)
 From Coq Require Import List NArith Bool.
 From GS Require Import Errs LTS Composite CompositeMon CompositeBase CompositeC10 CompositeC11
-     CompositeLocks CompositeLive CompositeProto.
+     CompositeLocks CompositeLive CompositeProto CompositeTrace CompositeLink2.
 Import ListNotations.
 
 (* C11_membership (pure; ALL entry lists of any length, duplicates included, no hypothesis):
@@ -54,10 +54,11 @@ Theorem C11_failed_callback : forall P s k r,
   r_calls r = [] /\ wof (ORel k) s = [] /\ kof (ORel k) s = [].
 Proof. exact failed_reload. Qed.
 
-(* ... and the failing step itself keeps the configuration, moves the machine to Error, releases
-   reloadMu and makes Reload return, from any state *)
+(* ... and the failing step itself (the callback returns nil or an error: r = CbNil or r = CbErr)
+   keeps the configuration, moves the machine to Error, releases reloadMu and makes Reload return,
+   from any state *)
 Theorem C11_failed_callback_step : forall P s k r s',
-  r <> CbNil \/ r <> CbErr -> (forall c, r <> CbSome c) ->
+  (forall c, r <> CbSome c) ->
   step P s (LCb (ORel k) r) = Some s' ->
   fsm s' = FError /\ cfg s' = cfg s /\ kids s' = kids s /\ workers s' = workers s
   /\ sigs s' = sigs s /\ reload_mu s' = None
@@ -134,3 +135,71 @@ Example C11_nonvacuous_protocol : exists s,
   map w_child (wof (ORel 1) s) = [0; 1]%N /\ map k_child (kof (ORel 1) s) = [1; 2]%N /\
   option_map r_path (nth_error (reloaders s) 2) = Some PFailedCb.
 Proof. eexists. split; [vm_compute; reflexivity|]. vm_compute. repeat split. Qed.
+
+(* all hypotheses of C11_failed_callback_step at once: the third Reload of the schedule above, whose
+   callback returns an error *)
+Example C11_failed_callback_step_nonvacuous : exists s s',
+  run (step ex_pool) init (firstn 36 ex_sched) = Some s /\
+  (forall c, CbErr <> CbSome c) /\
+  step ex_pool s (LCb (ORel 2) CbErr) = Some s' /\
+  nth_error ex_sched 36 = Some (LCb (ORel 2) CbErr) /\
+  fsm s = FReloading /\ fsm s' = FError /\ cfg s' = cfg s /\ cfg s = Some [(1, 4); (2, 9)]%N.
+Proof.
+  eexists. eexists. split; [vm_compute; reflexivity|]. split; [discriminate|].
+  split; [vm_compute; reflexivity|]. vm_compute. repeat split.
+Qed.
+
+(* ---------------------------------------------------------------------------------------------
+   Monitor link for c11-clause30 (the driver's check on the Held observable: "at an observation with
+   no Reload() in flight, Runner.String() names the newest configuration the callback returned").
+   Every schedule of every variant: at any point of a trace at which every Reload() call has
+   returned, the stored configuration is the value of the last successful callback in the trace
+   (cur_of; None if there was none).
+   --------------------------------------------------------------------------------------------- *)
+Theorem C11_monitor_clause30_link : forall P ls s,
+  run (step P) init ls = Some s ->
+  count_ev (is_call OpReload) (obs_trace obs ls) = count_ev (is_ret OpReload) (obs_trace obs ls) ->
+  cfg s = cur_of (obs_trace obs ls).
+Proof. exact c11_clause30_link. Qed.
+
+Print Assumptions C11_monitor_clause30_link.
+
+(* all hypotheses at once: after the three reloads of ex_sched all have returned; the Runner holds
+   the value of the second callback (the third failed) *)
+Example C11_monitor_clause30_nonvacuous : exists s,
+  run (step ex_pool) init ex_sched = Some s /\
+  count_ev (is_call OpReload) (obs_trace obs ex_sched) = 3 /\
+  count_ev (is_ret OpReload) (obs_trace obs ex_sched) = 3 /\
+  cfg s = Some [(1, 4); (2, 9)]%N /\ cur_of (obs_trace obs ex_sched) = Some [(1, 4); (2, 9)]%N.
+Proof. eexists. split; [vm_compute; reflexivity|]. vm_compute. auto. Qed.
+
+(* FINDINGS about the monitors (not about the code).  c11-clause10 ("Reload did not return before
+   the next observation") is FALSE of prefixes / of observations taken while the Reload() is in
+   progress ... *)
+Definition boot_sched : list label :=
+  [LRunCall; LRunBegin; LBootLock ORun; LCb ORun (CbSome [(0, 0)]%N); LBootLaunch ORun; LToRunning;
+   LKRun 0 0%N; LState FRunning].
+
+Example C11_monitor_clause10_prefix_witness : exists s,
+  run (step ex_pool) init (boot_sched ++ [LReloadCall 0; LState FRunning]) = Some s /\
+  C11_holdsb ex_pool (obs_trace obs (boot_sched ++ [LReloadCall 0; LState FRunning])) = 10%N.
+Proof. eexists. split; vm_compute; reflexivity. Qed.
+
+(* ... and c11-clause13 ("an unchanged set gets exactly one ReloadWithConfig per entry") is FALSE of
+   model traces in which a Reload() is called while an earlier one - called before Running was
+   observed, hence not examined - has not returned: the window of the second contains the calls of
+   both.  The clause is meant for the SEQUENTIAL regime the harness scripts (a Reload() is issued when
+   no other is in flight, or the monitor is disarmed by the extra API call in the window); its model
+   counterpart is C11_in_place; no theorem links the two yet *)
+Definition overlap_sched : list label :=
+  [LRunCall; LRunBegin; LState FBooting; LReloadCall 0;
+   LBootLock ORun; LCb ORun (CbSome [(0, 0)]%N); LBootLaunch ORun; LToRunning; LKRun 0 0%N; LState FRunning;
+   LReloadCall 1;
+   LRlLock 0; LCb (ORel 0) (CbSome [(0, 1)]%N); LRlSetInPlace 0; LRlCfg 0 0%N 1%N; LRlFinish 0; LRlRet 0;
+   LRlLock 1; LCb (ORel 1) (CbSome [(0, 2)]%N); LRlSetInPlace 1; LRlCfg 1 0%N 2%N; LRlFinish 1; LRlRet 1;
+   LState FRunning].
+
+Example C11_monitor_clause13_needs_sequential : exists s,
+  run (step ex_pool) init overlap_sched = Some s /\
+  C11_holdsb ex_pool (obs_trace obs overlap_sched) = 13%N.
+Proof. eexists. split; vm_compute; reflexivity. Qed.
